@@ -99,3 +99,74 @@ Proof.
   intro p. unfold components. apply Forall_forall. intros x Hx. apply filter_In in Hx. destruct Hx as [_ Hx].
   destruct x; [discriminate | discriminate].
 Qed.
+
+(* --- os.path.dirname against path[:rpos] ------------------------------------------------------------------ *)
+Lemma rstrip_slash_snoc : forall x, rstrip_slash (x ++ [c_slash]) = rstrip_slash x.
+Proof.
+  induction x as [|c x IH]; [reflexivity|]. simpl. rewrite IH. reflexivity.
+Qed.
+
+Lemma rstrip_slash_decomp : forall x, exists k, x = rstrip_slash x ++ repeat c_slash k.
+Proof.
+  induction x as [|c x [k IH]]; [exists 0%nat; reflexivity|].
+  simpl. destruct (rstrip_slash x) as [|d r'] eqn:E.
+  - destruct (N.eqb c c_slash) eqn:Ec.
+    + apply N.eqb_eq in Ec. subst c. exists (S k). simpl in *. congruence.
+    + exists k. simpl in *. congruence.
+  - exists k. simpl in *. congruence.
+Qed.
+
+Lemma split_slash_repeat : forall k, split_slash (repeat c_slash k) = repeat [] (S k).
+Proof. induction k; [reflexivity|]. simpl. rewrite IHk. reflexivity. Qed.
+Lemma filter_nonempty_repeat : forall k, filter nonempty (repeat ([] : str) k) = [].
+Proof. induction k; [reflexivity | exact IHk]. Qed.
+
+Lemma parts_app_slashes : forall y k, filter nonempty (split_slash (y ++ repeat c_slash k)) = filter nonempty (split_slash y).
+Proof.
+  intros y [|k]; [rewrite app_nil_r; reflexivity|].
+  simpl. rewrite split_slash_app. rewrite filter_app. rewrite split_slash_repeat. rewrite filter_nonempty_repeat. apply app_nil_r.
+Qed.
+Lemma parts_rstrip : forall x, filter nonempty (split_slash (rstrip_slash x)) = filter nonempty (split_slash x).
+Proof.
+  intro x. destruct (rstrip_slash_decomp x) as [k E]. rewrite E at 2. symmetry. apply parts_app_slashes.
+Qed.
+Lemma parts_all_slashes : forall x, rstrip_slash x = [] -> filter nonempty (split_slash x) = [].
+Proof.
+  intros x H. destruct (rstrip_slash_decomp x) as [k E]. rewrite H in E. simpl in E. rewrite E.
+  rewrite split_slash_repeat. apply filter_nonempty_repeat.
+Qed.
+
+Lemma rstrip_mem : forall h', rstrip_slash (s_mem ++ h') = s_mem ++ rstrip_slash h'.
+Proof.
+  intro h'. unfold s_mem. simpl. destruct (rstrip_slash h'); reflexivity.
+Qed.
+
+(* what mk_parent does for a routed path: either mkdirs on the components of path[:rpos], or nothing because
+   the parent is the root of the memory file system *)
+Theorem dirname_components : forall p h t, routed p = true -> rsplit p = Some (h, t) ->
+  dirname p <> [] /\
+  ((routed (dirname p) = true /\ components (dirname p) = components h) \/
+   (routed (dirname p) = false /\ components h = [])).
+Proof.
+  intros p h t Hr Hs. destruct (routed_shape p Hr) as [r E]. subst p.
+  destruct (rsplit_routed r h t Hs) as [h' [Eh Es]]. subst h.
+  destruct (rsplit_spec _ _ _ Es) as [Ecat _].
+  pose proof (prefix_of_slash_start h' t r Ecat) as Hh'.
+  unfold dirname. rewrite Hs. rewrite rstrip_slash_snoc. rewrite rstrip_mem.
+  assert (Hm : forall (y alt : str), match s_mem ++ y with [] => alt | n :: l => n :: l end = s_mem ++ y) by reflexivity.
+  rewrite Hm. clear Hm.
+  assert (Ecomp : components (s_mem ++ h') = filter nonempty (split_slash h')).
+  { unfold components. rewrite internal_path_parent by assumption. reflexivity. }
+  destruct (rstrip_slash h') as [|d r'] eqn:Er.
+  - (* the parent is "/mem" followed by slashes only *)
+    rewrite app_nil_r. split; [discriminate|]. right. split; [reflexivity|].
+    rewrite Ecomp. apply parts_all_slashes. exact Er.
+  - split; [discriminate|]. left.
+    destruct Hh' as [X|[x X]]; [subst h'; discriminate|]. subst h'.
+    assert (Ed : d = c_slash).
+    { simpl in Er. destruct (rstrip_slash x); [destruct (N.eqb c_slash c_slash); inv Er; reflexivity | inv Er; reflexivity]. }
+    subst d. split.
+    + reflexivity.
+    + rewrite Ecomp.
+      unfold components. rewrite internal_path_routed. rewrite <- Er. apply parts_rstrip.
+Qed.
